@@ -495,9 +495,9 @@ Section ExportProofs2.
     intros ->. unfold spec_idx. apply filter_ext. intros i. lia.
   Qed.
 
-  Lemma sel_spec_plain (h5 : bool) filt filtered (data : list A) :
+  Lemma sel_spec_plain (h5 : bool) (filt : list bool) (filtered : bool) (data : list A) :
     len data <= len filt ->
-    let fa := if filtered then Some filt else None in
+    let fa := if filtered return option (list bool) then Some filt else None in
     if sel_fast fa h5
     then spec_idx A filtered filt None data = zrange 0 (length data)
     else forall fl, fa = Some fl ->
@@ -536,19 +536,19 @@ Section ExportProofs2.
     unfold filter_arr, spec_lim. destruct skip; [exact Hplain|].
     pose proof (in_lengths fs f p Hf Hp) as Hin.
     destruct (lengths A fs) as [|h t] eqn:El; [exact Hplain|].
-    set (lmin := zmin_list A h t). set (lmax := zmax_list A h t).
-    pose proof (zmin_le A h t _ Hin) as Hmin. fold lmin in Hmin.
-    pose proof (zmax_ge A h t _ Hin) as Hmax. fold lmax in Hmax.
+    set (lmin := zmin_list h t). set (lmax := zmax_list h t).
+    pose proof (zmin_le h t _ Hin) as Hmin. fold lmin in Hmin.
+    pose proof (zmax_ge h t _ Hin) as Hmax. fold lmax in Hmax.
     destruct (lmin =? lmax) eqn:Eq.
     - rewrite spec_idx_lim_eq by lia. exact Hplain.
     - assert (H0 : 0 <= lmin).
-      { pose proof (zmin_in A h t) as Hi. fold lmin in Hi. rewrite <- El in Hi.
+      { pose proof (zmin_in h t) as Hi. fold lmin in Hi. rewrite <- El in Hi.
         apply lengths_inv in Hi. destruct Hi as (f' & p' & _ & _ & ->).
         apply len_nonneg. }
       assert (Hmaxle : lmax <= ds_len ds).
-      { pose proof (zmax_in A h t) as Hi. fold lmax in Hi. rewrite <- El in Hi.
+      { pose proof (zmax_in h t) as Hi. fold lmax in Hi. rewrite <- El in Hi.
         apply lengths_inv in Hi. destruct Hi as (f' & p' & Hf' & Hp' & ->).
-        now apply Hle. }
+        now apply (Hle f' p'). }
       set (base := match (if filtered then Some filt else None) with
                    | Some f0 => f0
                    | None => repeat true (Z.to_nat (ds_len ds))
@@ -587,6 +587,22 @@ Section ExportProofs2.
       + right. exists ev'. now right.
     - destruct (IH (bn, bk)) as [E|(ev' & H)]; [now left|].
       right. exists ev'. now right.
+  Qed.
+
+  Lemma calls_of_features cfg ds fa fs cs :
+    bind_all A (feat_calls A d z enum cfg ds fa) fs = Ok cs ->
+    Forall (fun cl : call => exists f p, In f fs /\ In p (f_parts f)
+              /\ fst (fst cl) = f_name f /\ snd (fst cl) = p_key p) cs.
+  Proof.
+    intros Eb. apply bind_all_ok in Eb. destruct Eb as (rs & HF & ->).
+    induction HF as [|f c gs rs Hf HF IH]; [constructor|].
+    cbn [concat]. apply Forall_app. split.
+    - apply feat_calls_tagged in Hf. eapply Forall_impl; [|exact Hf].
+      cbv beta. intros cl [H1 (p & Hp & H2)]. exists f, p.
+      repeat split; auto. now left.
+    - eapply Forall_impl; [|exact IH]. cbv beta.
+      intros cl (f' & p & Hf' & Hp & H1 & H2). exists f', p.
+      repeat split; auto. now right.
   Qed.
 
   Lemma export_selects cfg ds filt filtered skip req (calls : list call) cnt :
@@ -647,27 +663,126 @@ Section ExportProofs2.
                (Hoth n k)).
       now rewrite Hnames.
     - intros Hne. unfold event_count.
-      destruct cs as [|[[n0 k0] ev0] t] eqn:Ecs; [congruence|].
-      rewrite <- Ecs in *.
-      assert (Hall : Forall (fun cl : call => exists f p, In f fs /\ In p (f_parts f)
-                       /\ fst (fst cl) = f_name f /\ snd (fst cl) = p_key p) cs).
-      { clear - Eb. apply bind_all_ok in Eb. destruct Eb as (rs & HF & ->).
-        induction HF as [|f c fs rs Hf HF IH]; [constructor|].
-        cbn [concat]. apply Forall_app. split.
-        - apply feat_calls_tagged in Hf. eapply Forall_impl; [|exact Hf].
-          cbv beta. intros cl [H1 (p & Hp & H2)]. exists f, p.
-          repeat split; auto. now left.
-        - eapply Forall_impl; [|exact IH]. cbv beta.
-          intros cl (f' & p & Hf' & Hp & H1 & H2). exists f', p.
-          repeat split; auto. now right. }
+      pose proof (calls_of_features cfg ds fa fs cs Eb) as Hall.
       rewrite Forall_forall in Hall.
+      destruct cs as [|[[n0 k0] ev0] t]; [congruence|].
       destruct (first_call A (n0, k0) t) as [bn bk] eqn:Efc.
-      assert (Hinc : exists ev, In (bn, bk, ev) cs).
+      assert (Hinc : exists ev, In (bn, bk, ev) ((n0, k0, ev0) :: t)).
       { destruct (first_call_in t (n0, k0)) as [E|(ev & Hev)].
-        - rewrite Efc in E. inversion E; subst. exists ev0. rewrite Ecs. now left.
-        - rewrite Efc in Hev. cbn [fst snd] in Hev. exists ev. rewrite Ecs. now right. }
-      destruct Hinc as (ev & Hev). destruct (Hall _ Hev) as (f & p & Hf & Hp & H1 & H2).
-      cbn [fst snd] in H1, H2. subst. exists f, p. auto.
+        - rewrite Efc in E. inversion E; subst. exists ev0. now left.
+        - rewrite Efc in Hev. cbn [fst snd] in Hev. exists ev. now right. }
+      destruct Hinc as (ev & Hev).
+      destruct (Hall _ Hev) as (f & p & Hf & Hp & H1 & H2).
+      cbn [fst snd] in H1, H2. subst bn bk. exists f, p. auto.
     - intros ->. reflexivity.
   Qed.
 End ExportProofs2.
+
+(* ---- the export is not total: the two known failure classes ------------------- *)
+Definition ex_ds_nonsliceable : dset Z :=
+  mkDs Z false 2 2 [mkFeat Z 0 KImage [mkPart Z 0 true false 1 [5; 6]]].
+Definition ex_ds_short : dset Z :=
+  mkDs Z false 3 3 [mkFeat Z 0 KContour [mkPart Z 0 false false 8 [5]]].
+
+Lemma export_total_refuted :
+  (exists (ds : dset Z) filt req,
+      wf_ds Z ds /\ len filt = ds_len ds /\
+      export Z 0 0 (fun k => k) 1 ds filt true false req = Err 1)
+  /\ (exists (ds : dset Z) filt req,
+      wf_ds Z ds /\ len filt = ds_len ds /\
+      export Z 0 0 (fun k => k) 1 ds filt true false req = Err 2).
+Proof.
+  split.
+  - exists ex_ds_nonsliceable, [true; false], [0].
+    split; [|split; [reflexivity|vm_compute; reflexivity]].
+    unfold wf_ds, ex_ds_nonsliceable; cbn.
+    repeat constructor; auto; cbv; discriminate.
+  - exists ex_ds_short, [true; true; true], [0].
+    split; [|split; [reflexivity|vm_compute; reflexivity]].
+    unfold wf_ds, ex_ds_short; cbn.
+    repeat constructor; auto; cbv; discriminate.
+Qed.
+
+(* non-vacuity of export_selects: a hierarchy-like source, chunked image *)
+Example ex_export_ok :
+  let ds := mkDs Z false 4 4
+              [mkFeat Z 0 KScalar [mkPart Z 0 true true 8 [10; 11; 12; 13]];
+               mkFeat Z 1 KImage [mkPart Z 0 false false 54 [20; 21; 22; 23]]] in
+  wf_ds Z ds
+  /\ export Z 0 0 (fun k => k) 1 ds [true; false; true; true] true false [1; 0; 1]
+     = Ok ([(0, 0, [10; 12; 13]); (1, 0, [20; 22; 23])], 3).
+Proof.
+  split; [|vm_compute; reflexivity].
+  unfold wf_ds; cbn. repeat constructor; auto; cbv; discriminate.
+Qed.
+
+(* ---- Export.tsv ------------------------------------------------------------------ *)
+Section Tsv.
+  Variable A : Type.
+  Variable d : A.
+
+  Definition tsv_col_ok (ds : dset A) (filt : list bool) (filtered : bool)
+             (n : Z) (col : list A) : Prop :=
+    exists f p, lookup A n (ds_feats ds) = Some f /\ f_parts f = [p]
+      /\ (f_kind f = KScalar \/ f_kind f = KIndex)
+      /\ col = if filtered then take d (p_data p) (where_ filt) else p_data p.
+
+  Lemma tsv_cols_spec ds filt filtered req cols :
+    tsv_cols A ds filt filtered req = Ok cols ->
+    Forall2 (tsv_col_ok ds filt filtered) (sortset req) cols.
+  Proof.
+    unfold tsv_cols. generalize (sortset req) as names. intros names. revert cols.
+    induction names as [|n t IH]; intros cols H.
+    - inversion H. constructor.
+    - lazy beta iota in H.
+      destruct (lookup A n (ds_feats ds)) as [[nm k ps]|] eqn:El; [|discriminate].
+      destruct k; destruct ps as [|p [|q ps]]; try discriminate;
+        (destruct (filtered && negb (len filt =? len (p_data p))) eqn:Ec;
+           [discriminate|];
+         match type of H with bind ?g _ = _ => destruct g as [r|c] eqn:Eg end;
+         cbn [bind] in H; [|discriminate];
+         inversion H; subst; constructor; [|now apply IH];
+         eexists (mkFeat A nm _ [p]), p; cbn [f_parts f_kind];
+         split; [exact El|]; split; [reflexivity|]; split; [auto|];
+         destruct filtered; [|reflexivity];
+         apply mask_select_take; unfold len in Ec; lia).
+  Qed.
+
+  Lemma transpose_nth (cols : list (list A)) r j :
+    (r < length (nth 0 cols []))%nat -> (j < length cols)%nat ->
+    nth j (nth r (transpose A d cols) []) d = nth r (nth j cols []) d.
+  Proof.
+    intros Hr Hj. unfold transpose. destruct cols as [|c0 cs]; [simpl in Hj; lia|].
+    cbn [nth] in Hr.
+    set (f := fun r0 => map (fun col : list A => nth r0 col d) (c0 :: cs)).
+    rewrite (nth_indep _ [] (f 0%nat)) by (now rewrite map_length, seq_length).
+    rewrite map_nth. rewrite seq_nth by assumption. cbn [Nat.add]. unfold f.
+    rewrite (nth_indep _ d ((fun col : list A => nth r col d) []))
+      by (now rewrite map_length).
+    apply (map_nth (fun col : list A => nth r col d)).
+  Qed.
+
+  Lemma tsv_rows_spec ds filt filtered req rows :
+    tsv_rows A d ds filt filtered req = Ok rows ->
+    exists cols,
+      tsv_cols A ds filt filtered req = Ok cols
+      /\ rows = transpose A d cols
+      /\ Forall2 (tsv_col_ok ds filt filtered) (sortset req) cols
+      /\ (forall r j, (r < length (nth 0 cols []))%nat -> (j < length cols)%nat ->
+            nth j (nth r rows []) d = nth r (nth j cols []) d).
+  Proof.
+    unfold tsv_rows. intros H.
+    destruct (tsv_cols A ds filt filtered req) as [cols|c] eqn:E; cbn [bind] in H;
+      [|discriminate].
+    inversion H; subst. exists cols. split; [reflexivity|]. split; [reflexivity|].
+    split; [now apply tsv_cols_spec|]. intros r j. apply transpose_nth.
+  Qed.
+End Tsv.
+
+Example ex_tsv :
+  tsv_rows Z 0 (mkDs Z false 3 3
+                  [mkFeat Z 0 KScalar [mkPart Z 0 true true 8 [10; 11; 12]];
+                   mkFeat Z 1 KScalar [mkPart Z 0 true true 8 [20; 21; 22]]])
+           [true; false; true] true [1; 0; 1]
+  = Ok [[10; 20]; [12; 22]].
+Proof. vm_compute. reflexivity. Qed.
